@@ -303,30 +303,57 @@ func NewKind(kind string, cap int) stackage.Stack {
 }
 
 func (o *Obj) installPolicy(acc []string) {
-	o.acc = map[string]bool{}
+	// the closure owns its accept-set: if the library refuses the installation
+	// (read-only stack) the previously installed closure must keep ITS meaning
+	mine := map[string]bool{}
 	for _, a := range acc {
-		o.acc[a] = true
+		mine[a] = true
 	}
+	o.acc = mine
 	o.S.SetPushPolicy(func(x ...any) error {
 		v := "nil"
 		if len(x) > 0 {
 			v = Proj(x[0])
 		}
 		o.log = append(o.log, v)
-		if o.acc[v] {
+		if mine[v] {
 			return nil
 		}
 		return errPolicy
 	})
 }
 
-func setOpt(s stackage.Stack, f, m string) {
+func setOpt(s stackage.Stack, f, m string, dep ...bool) {
 	var arg []bool
 	switch m {
 	case "on":
 		arg = []bool{true}
 	case "off":
 		arg = []bool{false}
+	}
+	if len(dep) > 0 && dep[0] {
+		// the deprecated alias spellings
+		switch f {
+		case "paren":
+			s.Paren(arg...)
+		case "fold":
+			s.Fold(arg...)
+		case "nspad":
+			s.NoPadding(arg...)
+		case "lonce":
+			s.LeadOnce(arg...)
+		case "neg":
+			s.NegativeIndices(arg...)
+		case "fwd":
+			s.ForwardIndices(arg...)
+		case "ronly":
+			s.ReadOnly(arg...)
+		case "nnest":
+			s.NoNesting(arg...)
+		default:
+			panic("unknown flag " + f)
+		}
+		return
 	}
 	switch f {
 	case "paren":
@@ -427,8 +454,13 @@ func Build(a AState) *Obj {
 	if a.MPol {
 		setStackClosure(o.S, "SetMarshaler", true, false)
 	}
-	if a.Err == "set" {
+	switch a.Err {
+	case "user", "set":
 		o.S.SetErr(errUser)
+	case "policy":
+		o.S.SetErr(errPolicy)
+	case "lib":
+		o.S.SetErr(errors.New("library error"))
 	}
 	ro := false
 	for _, f := range a.Opts {
@@ -555,7 +587,7 @@ func applyInner(o, d *Obj, c Call) (ret []string) {
 	case "SetFIFO":
 		o.S.SetFIFO(c.Bool("b"))
 	case "SetOpt":
-		setOpt(o.S, c.Str("f"), c.Str("m"))
+		setOpt(o.S, c.Str("f"), c.Str("m"), c.Bool("dep"))
 	case "SetPushPolicy":
 		if c.Bool("on") {
 			o.installPolicy(c.Strs("acc"))
@@ -563,7 +595,11 @@ func applyInner(o, d *Obj, c Call) (ret []string) {
 			o.S.SetPushPolicy(nil)
 		}
 	case "SetMutex":
-		o.S.SetMutex()
+		if c.Bool("dep") {
+			o.S.Mutex()
+		} else {
+			o.S.SetMutex()
+		}
 	case "SetErr":
 		if c.Bool("on") {
 			o.S.SetErr(errUser)
@@ -636,7 +672,11 @@ func applyInner(o, d *Obj, c Call) (ret []string) {
 				}
 			}
 		}
-		o.S.SetSymbol(args...)
+		if c.Bool("dep") {
+			o.S.Symbol(args...)
+		} else {
+			o.S.SetSymbol(args...)
+		}
 	case "SetEncap":
 		var args []any
 		if l, ok := c["pairs"].([]any); ok {
@@ -651,7 +691,11 @@ func applyInner(o, d *Obj, c Call) (ret []string) {
 				args = append(args, pair)
 			}
 		}
-		o.S.SetEncap(args...)
+		if c.Bool("dep") {
+			o.S.Encap(args...)
+		} else {
+			o.S.SetEncap(args...)
+		}
 	case "Index":
 		ret = valret(o.S.Index(c.Int("i")))
 	case "Front":
@@ -776,10 +820,15 @@ func Observe(s stackage.Stack) Obs {
 	o.CanNest = safeS(func() string { return b2s(s.CanNest()) })
 	o.Nesting = safeS(func() string { return b2s(s.IsNesting()) })
 	o.Err = safeS(func() string {
-		if s.Err() != nil {
-			return "set"
+		switch e := s.Err(); {
+		case e == nil:
+			return "none"
+		case e == errUser:
+			return "user"
+		case e == errPolicy:
+			return "policy"
 		}
-		return "none"
+		return "lib"
 	})
 	o.CanMtx = safeS(func() string { return b2s(s.CanMutex()) })
 	o.ID = safeS(func() string {
